@@ -112,12 +112,12 @@ def c11(tier, seed):
 
 def c08(tier, seed):
     r = Result("exploration",
-               "every ordered pair (importing file, imported file) of relative paths built from <= D directory components over {a, b, a.b, x.ts, ts, ., ..} followed by a file name from {A.ts, b.c.ts, x.ts.ts, ts.ts, Ats} x base in {./bindings, rel/dir, /abs/dir, ./x/../y, /b, bindings/, /} x cwd depth {1,3} x import-esm {off,on}, through the real import_path(); oracle: independent lexical resolver (specifier syntax + resolution == dependency file); plus the specifiers of every real import statement written by the graph corpus. distinct = distinct relative path shapes",
+               "every ordered pair (importing file, imported file) of relative paths built from <= D directory components over {a, b, a.b, x.ts, ts, .hid, ., ..} followed by a file name from {A.ts, b.c.ts, x.ts.ts, ts.ts, .h.ts, Ats} x base in {./bindings, /abs/dir, ./x/../y, /b} (thorough: + rel/dir, bindings/, /) x cwd depth {1,3} x import-esm {off,on}, through the real import_path(); oracle: independent lexical resolver (specifier syntax + resolution == dependency file); plus the specifiers of every real import statement written by the graph corpus. distinct = distinct relative path shapes",
                "exhaustive enumeration of path pairs through the real import_path against an independent resolver")
     depth = 3 if tier == "quick" else 4
     for feats in ((), ("import-esm",)):
         e3 = build_e3(feats)
-        m = run_sliced(e3, ["paths", "--depth", str(depth)], slices=64)
+        m = run_sliced(e3, ["paths", "--depth", str(depth)] + (["--fewer-bases"] if tier == "quick" else []), slices=64)
         m["distinct"] = {f"{feats}:{x}" for x in m["distinct"]}
         r.absorb(m, ("esm." if feats else "cjs."))
     for feats, m in _graph("quick", "C08"):
@@ -216,10 +216,15 @@ def c16(tier, seed):
     name, crates, bins, cases, excluded = driver.e2_build("main", tier)
     r.evaluations += len(cases)
     r.counters["main_corpus_cases_compiled_by_rustc"] = len(cases) - len(excluded)
+    for corpus in ("generic", "present"):
+        _, _, _, cases2, excluded2 = driver.e2_build(corpus, tier)
+        r.evaluations += len(cases2)
+        r.counters[corpus + "_corpus_cases_compiled_by_rustc"] = len(cases2) - len(excluded2)
+        excluded = {**excluded, **{f"{corpus}:{k}": v for k, v in excluded2.items()}}
     for cid, msg in excluded.items():
         r.violations.append({"class": {"check": "accepted-expansion-does-not-compile"}, "count": 1,
                              "examples": [{"case": cid, "rustc": msg}]})
-    r.rule += "; plus rustc's verdict: every case of the main E2 corpus (types in the supported fragment, valid by construction) must compile"
+    r.rule += "; plus rustc's verdict: every case of the main, generic and present E2 corpora (types in the supported fragment, valid by construction, incl. lifetimes, const parameters with defaults, bounds) must compile"
     r.assumptions = ["proc_macro2/syn behave in the unit-test build (fallback mode) as inside rustc",
                      "the validity table in e1_macros.rs::expected_outcome transcribes the documented incompatibilities; items with an invalid-value option are only required not to panic"]
     return r
